@@ -86,13 +86,28 @@ def parseOp (s : String) : Option (Op Rat) :=
   | ["zero", d] => do some (.zero (← d.toNat?))
   | _ => none
 
-/-- run a history, reporting the index of the failing op on error -/
-def runIdx : List (Op Rat) → List (LP Rat) → Nat → Except (Err × Nat) (List (LP Rat))
+def zeroValued (p : LP Rat) : Bool := p.coefs.all (· == 0)
+
+/-- is the operation inside the domain on which C09 is stated?  A truncation window must have
+    the parity of the operand (`TruncGuard` of `den_truncate'`), and sums whose refusal would
+    only be due to the parity carried by a zero-valued, unflagged operand are left open. -/
+def opInDomain (env : List (LP Rat)) : Op Rat → Bool
+  | .trunc _ a lo _ => let p := rd env a; zeroValued p || (lo - p.dmin) % 2 == 0
+  | .add _ a b => let p := rd env a; let q := rd env b
+      !((zeroValued p && !p.iszero) || (zeroValued q && !q.iszero)) || p.parity == q.parity
+  | .sub _ a b => let p := rd env a; let q := rd env b
+      !((zeroValued p && !p.iszero) || (zeroValued q && !q.iszero)) || p.parity == q.parity
+  | _ => true
+
+/-- run a history, reporting the index of the failing op on error; `outside i` when op `i`
+    leaves the domain of the property -/
+def runIdx : List (Op Rat) → List (LP Rat) → Nat → Except (String × Nat) (List (LP Rat))
   | [], env, _ => .ok env
   | op :: ops, env, i =>
-    match step env op with
+    if !opInDomain env op then .error ("outside", i)
+    else match step env op with
     | .ok e => runIdx ops e (i + 1)
-    | .error er => .error (er, i)
+    | .error er => .error (showErr er, i)
 
 def handle (toks : List String) : String :=
   match toks with
@@ -132,7 +147,7 @@ def handle (toks : List String) : String :=
       | some env, some ops =>
         match runIdx ops env 0 with
         | .ok e => "ok " ++ " ".intercalate (e.map showLP)
-        | .error (er, i) => s!"{showErr er}@{i}"
+        | .error (er, i) => s!"{er}@{i}"
       | _, _ => bad
   -- Low algebra ------------------------------------------------------------------------
   | ["la.mul", i1, x1, i2, x2] => withLA i1 x1 fun g => withLA i2 x2 fun h => showLAE (g.mul h)
